@@ -99,6 +99,8 @@ where
         let e = Element::new(key, val, hash_v);
         if self.tbl[pos].is_some() {
             self.stat.conflict_count += 1;
+            #[cfg(feature = "verif-hooks")]
+            crate::verif_hooks::note_lru_overwrite();
             // println!("hash: {hash_v}, pos:{pos}, conflict: {}, num_filled: {}", self.stat.conflict_count, self.num_filled);
         } else {
             self.num_filled += 1;
@@ -121,6 +123,8 @@ where
 
     /// grow the hashtable to accomodate more elements
     fn grow(&mut self) {
+        #[cfg(feature = "verif-hooks")]
+        crate::verif_hooks::note_lru_grow();
         let new_sz = self.cap + 1;
         let new_v = vec![None; 1 << new_sz];
         let mut new_tbl = Lru {
